@@ -13,7 +13,7 @@ func init() {
 				"ok(oidc.CheckIssuedAt($r0, $v.MaxAgeIAT, $v.Offset))",
 				"ok($v.CheckSubject($r0))",
 				"ok(oidc.CheckSignature(_, $assertion, $payload, $r0, nil, $ks))",
-				"(def($ks, $v.keySet) && nonnil($ks)) || def($ks, &jwtProfileKeySet{storage: $v.Storage, clientID: $r0.Issuer})",
+				"(def($ks, $v.keySet) && nonnil($v.keySet)) || def($ks, &jwtProfileKeySet{storage: $v.Storage, clientID: $r0.Issuer})",
 			}},
 		{ID: "E8.assertion.default-subject-check", Fn: "op.newJWTProfileVerifier", P: []string{"storage", "keySet"}, Kind: "ret any", Pat: "ret(&JWTProfileVerifier{CheckSubject: op.SubjectIsIssuer, Storage: $storage, keySet: $keySet})", Max: 1},
 		{ID: "E1.assertion.subject-is-issuer.accept", Fn: "op.SubjectIsIssuer", P: []string{"request"}, Kind: "ret ok", Req: []string{"eq($request.Issuer, $request.Subject)"}},
